@@ -149,7 +149,10 @@ Fixpoint rep {A : Type} (p : parser A) (n : nat) (b : bytes) : option (list A * 
 
 (* r_mod: rowType.isActiveModified - sys.IsActive was assigned by the event the row belongs to
    (ICUDRow.IsActivated / IsDeactivated of an update row) *)
-Record row := mkRow { r_qid : N; r_id : N; r_parent : N; r_cont : N; r_active : bool; r_data : bytes; r_mod : bool }.
+(* r_nils: user-field indexes of the string/bytes fields that were put empty (rowType.nils; listed by
+   SpecifiedValues with an empty value).  Written for CUD rows only - there the list is c_emptied and
+   r_nils stays []; the rows of argument objects are stored without it. *)
+Record row := mkRow { r_qid : N; r_id : N; r_parent : N; r_cont : N; r_active : bool; r_data : bytes; r_mod : bool; r_nils : list N }.
 Inductive obj := Obj (r : row) (kids : list obj).
 Record cud := mkCud { c_row : row; c_emptied : list N }.
 (* ICUDRow.IsActivated / IsDeactivated of an update row (both false on a new row) *)
@@ -161,7 +164,7 @@ Record event := mkEvent {
   e_valid : bool; e_errstr : bytes; e_errname : bytes; e_errbytes : bytes;
   e_arg : obj; e_unl : obj; e_creates : list cud; e_updates : list cud }.
 
-Definition null_row : row := mkRow 0 0 0 0 true [] false.
+Definition null_row : row := mkRow 0 0 0 0 true [] false [].
 Definition null_obj : obj := Obj null_row [].
 Definition root (o : obj) : row := match o with Obj r _ => r end.
 
@@ -243,7 +246,7 @@ Definition dec_row (s : schema) (v : N) : parser row := fun b =>
   do (act, b) <- (if has m c02_sfm_active then rd_bool b else Some (true, b));
   do (len, b) <- rdn 4 b;
   do (data, b) <- take_n len b;
-  Some (mkRow q id par cont act data (c02_mask_carries_actmod && has m c02_sfm_actmod), b).
+  Some (mkRow q id par cont act data (c02_mask_carries_actmod && has m c02_sfm_actmod) [], b).
 
 (* loadObject; fuel bounds the nesting depth *)
 Fixpoint dec_obj (fuel : nat) (s : schema) (v : N) (b : bytes) : option (obj * bytes) :=
@@ -313,31 +316,39 @@ Definition proper_prefix (p b : bytes) : Prop := exists ext, ext <> [] /\ b = p 
    marks too, when the mask carries them).  Event that is not valid (build error, sys.Corrupted):
    only the error record - message and original name cut to 65535 bytes, original bytes unless the
    command has an unlogged argument; the builder's argument objects and CUD rows are not stored. *)
-Definition clear_row (r : row) : row := mkRow (r_qid r) (r_id r) (r_parent r) (r_cont r) (r_active r) (r_data r) false.
+Definition clear_row (r : row) : row := mkRow (r_qid r) (r_id r) (r_parent r) (r_cont r) (r_active r) (r_data r) false (r_nils r).
 Fixpoint clear_obj (o : obj) : obj := match o with Obj r ks => Obj (clear_row r) (map clear_obj ks) end.
 Definition clear_cud (c : cud) : cud := mkCud (clear_row (c_row c)) (c_emptied c).
+Definition drop_nils_row (r : row) : row := mkRow (r_qid r) (r_id r) (r_parent r) (r_cont r) (r_active r) (r_data r) (r_mod r) [].
+Fixpoint drop_nils_obj (o : obj) : obj := match o with Obj r ks => Obj (drop_nils_row r) (map drop_nils_obj ks) end.
+Definition with_args (e : event) (a u : obj) : event :=
+  mkEvent (e_qid e) (e_part e) (e_poffs e) (e_ws e) (e_woffs e) (e_reg e) (e_sync e) (e_dev e) (e_syncat e)
+          (e_valid e) (e_errstr e) (e_errname e) (e_errbytes e) a u (e_creates e) (e_updates e).
+Definition drop_arg_nils (e : event) : event := with_args e (drop_nils_obj (e_arg e)) (drop_nils_obj (e_unl e)).
 Definition stored_form (e : event) : event :=
   if stored_valid e then
-    if c02_mask_carries_actmod then e else
-    mkEvent (e_qid e) (e_part e) (e_poffs e) (e_ws e) (e_woffs e) (e_reg e) (e_sync e) (e_dev e) (e_syncat e)
-            (e_valid e) (e_errstr e) (e_errname e) (e_errbytes e) (clear_obj (e_arg e)) (clear_obj (e_unl e))
-            (map clear_cud (e_creates e)) (map clear_cud (e_updates e))
+    drop_arg_nils
+      (if c02_mask_carries_actmod then e else
+       mkEvent (e_qid e) (e_part e) (e_poffs e) (e_ws e) (e_woffs e) (e_reg e) (e_sync e) (e_dev e) (e_syncat e)
+               (e_valid e) (e_errstr e) (e_errname e) (e_errbytes e) (clear_obj (e_arg e)) (clear_obj (e_unl e))
+               (map clear_cud (e_creates e)) (map clear_cud (e_updates e)))
   else
     mkEvent (e_qid e) (e_part e) (e_poffs e) (e_ws e) (e_woffs e) (e_reg e) (e_sync e) (e_dev e) (e_syncat e)
             (e_valid e) (cut_str (e_errstr e)) (cut_str (e_errname e))
             (if r_qid (root (e_unl e)) =? 0 then e_errbytes e else []) null_obj null_obj [] [].
 
-(* the event object PutPlog returns and keeps in the PLog event cache: with clears = true (the code
-   since c96e94a78) an event that is not valid is cut down to its error record after encoding -
-   argument objects and CUD rows cleared, original bytes forgotten when there is an unlogged
-   argument; with clears = false it is the builder's object unchanged *)
-Definition returned_form_with (clears : bool) (e : event) : event :=
+(* the event object PutPlog returns and keeps in the PLog event cache, after encoding:
+   clears = true (the code since c96e94a78): an event that is not valid is cut down to its error
+   record - argument objects and CUD rows cleared, original bytes forgotten when there is an
+   unlogged argument; drops = true (since 75b678c2b): the rows of the argument objects lose their
+   emptied-field marks; with both false it is the builder's object unchanged *)
+Definition returned_form_with (clears drops : bool) (e : event) : event :=
   if clears && negb (stored_valid e) then
     mkEvent (e_qid e) (e_part e) (e_poffs e) (e_ws e) (e_woffs e) (e_reg e) (e_sync e) (e_dev e) (e_syncat e)
             (e_valid e) (e_errstr e) (e_errname e)
             (if r_qid (root (e_unl e)) =? 0 then e_errbytes e else []) null_obj null_obj [] []
-  else e.
-Definition returned_form : event -> event := returned_form_with c02_putplog_clears_invalid.
+  else if drops then drop_arg_nils e else e.
+Definition returned_form : event -> event := returned_form_with c02_putplog_clears_invalid c02_putplog_drops_arg_nils.
 
 (* storeToBytes of an event that was decoded without keeping its bytes (range reads): for an event
    that is not valid storeEventBuildError writes, as the original name, the name kept in the error
@@ -377,9 +388,12 @@ Fixpoint mask_lookup (t : list (N * N)) (q : N) : N :=
 Definition sch_masks (t : list (N * N)) : schema :=
   mkSchema (fun _ => true) (fun _ => true) (fun _ _ => true) (name_ok c02_errname_parse_strict) (mask_lookup t).
 
+(* emptied indexes are written in Go map order: compared as sets *)
+Definition nset_eqb (a b : list N) : bool :=
+  (length a =? length b)%nat && forallb (fun x => existsb (N.eqb x) b) a && forallb (fun x => existsb (N.eqb x) a) b.
 Definition row_eqb (a b : row) : bool :=
   (r_qid a =? r_qid b) && (r_id a =? r_id b) && (r_parent a =? r_parent b) && (r_cont a =? r_cont b)
-  && Bool.eqb (r_active a) (r_active b) && lex_eqb (r_data a) (r_data b) && Bool.eqb (r_mod a) (r_mod b).
+  && Bool.eqb (r_active a) (r_active b) && lex_eqb (r_data a) (r_data b) && Bool.eqb (r_mod a) (r_mod b) && nset_eqb (r_nils a) (r_nils b).
 Fixpoint obj_eqb (a b : obj) : bool :=
   match a, b with
   | Obj r ks, Obj r' ks' =>
@@ -391,9 +405,6 @@ Fixpoint obj_eqb (a b : obj) : bool :=
          | _, _ => false
          end) ks ks'
   end.
-(* emptied indexes are written in Go map order: compared as sets *)
-Definition nset_eqb (a b : list N) : bool :=
-  (length a =? length b)%nat && forallb (fun x => existsb (N.eqb x) b) a && forallb (fun x => existsb (N.eqb x) a) b.
 Definition cud_eqb (a b : cud) : bool :=
   row_eqb (c_row a) (c_row b) && nset_eqb (c_emptied a) (c_emptied b).
 (* updates are kept in a Go map keyed by record id: compared as sets *)
@@ -410,7 +421,7 @@ Definition event_eqb (a b : event) : bool :=
 (* what an accessor dump shows of a row: no payload; the "assigned" mark only on update rows
    (through IsActivated / IsDeactivated) *)
 Definition strip_row (keep_mod : bool) (r : row) : row :=
-  mkRow (r_qid r) (r_id r) (r_parent r) (r_cont r) (r_active r) [] (keep_mod && r_mod r).
+  mkRow (r_qid r) (r_id r) (r_parent r) (r_cont r) (r_active r) [] (keep_mod && r_mod r) (r_nils r).
 Fixpoint strip_obj (o : obj) : obj := match o with Obj r ks => Obj (strip_row false r) (map strip_obj ks) end.
 Definition strip_cud (is_new : bool) (c : cud) : cud := mkCud (strip_row (negb is_new) (c_row c)) (c_emptied c).
 Definition strip (e : event) : event :=
